@@ -16,7 +16,7 @@ SoxrModel/Properties/C01|C02|C12.lean take as premises.  It is never counted as 
               exported plan) and one member of every (plan class, knob) pair is drawn; REQUIRED_CLASSES / _ORDERS /
               _ENGINES name the planner paths every run has to hit
   findings    known findings of the pinned tree (known_findings.d/signal.json): configuration / plan signature
-              (finding_flags, f1_exact, sg4_signature) AND symptom bound (FINDING_SYMPTOM, sg4_cap); only entries listed
+              (finding_flags, f1_exact) AND symptom bound (FINDING_SYMPTOM); only entries listed
               as `known` for the running property (set_active) can explain an excess
 """
 import math, os, subprocess, sys
@@ -710,7 +710,7 @@ ANCHOR_RATIOS = [(1, 2), (2, 1), (1, 4), (4, 1), (3, 1), (1, 3), (3, 2), (2, 3),
 ANCHOR_RECIPES = [1, 2, 4, 4 | 0x40, 6]
 ANCHOR_SB_GT1 = [(2, 1), (4, 1), (4, 3), (5, 3), (8, 1)]
 ANCHOR_IRRATIONAL = [(3.14159, 1), (1, 3.14159), (1.7320508, 1), (1, 9.87), (6.99, 1)]
-KNOBS_SPECTRAL = ["base", "ph0", "ph25", "ph75", "ph100", "sb<1", "sb>1", "pb", "roll", "prec"]
+KNOBS_SPECTRAL = ["base", "ph0", "ph25", "ph75", "ph100", "sb<1", "sb>1", "sb>1.1", "pb", "roll", "prec"]
 _PHASE_BITS = {0: 0x30, 25: 0x10, 100: 0x20}
 
 
@@ -720,7 +720,7 @@ def apply_knob(rng, c, knob):
     if knob == "ph*":
         knob = rng.choice(["ph0", "ph25", "ph75", "ph100"])
     elif knob == "band*":
-        knob = rng.choice(["sb<1", "sb>1", "pb"])
+        knob = rng.choice(["sb<1", "sb>1", "sb>1.1", "pb"])
     if knob.startswith("ph"):
         v = int(knob[2:])
         if v in _PHASE_BITS and rng.below(2):
@@ -730,11 +730,16 @@ def apply_knob(rng, c, knob):
     elif knob == "sb<1":
         c["pb"] = round(rng.uniform(0.62, 0.86), 4)
         c["sb"] = round(min(0.985, c["pb"] + rng.uniform(0.05, 0.22)), 4)
-    elif knob == "sb>1":
-        c["sb"] = round(rng.uniform(1.01, 1.14), 4)
+    elif knob in ("sb>1", "sb>1.1"):
+        # two strata: a stop band that starts just above the lower Nyquist limit, and one well above it (what a misplaced band edge of a later
+        # stage lets through grows with stopband_begin - 1)
+        c["sb"] = round(rng.uniform(1.01, 1.09), 4) if knob == "sb>1" else round(rng.uniform(1.09, 1.14), 4)
         # aliasing / imaging is admitted above 2 - stopband_begin: the pass-band has to end below it (up-sampling: enforced by
         # _soxr_init, "imaging greater than rolloff"; down-sampling: the same reading of the configuration, see assumptions)
-        c["pb"] = round(rng.uniform(max(0.62, c["sb"] - 0.45), 2 - c["sb"] - 0.003), 4)
+        hi = 2 - c["sb"] - 0.003
+        # the far stratum keeps the pass-band end in the top of what the configuration admits (in-band tones next to the admitted aliasing:
+        # the demanding case for every stage's band edges); the near stratum spreads it
+        c["pb"] = round(rng.uniform(hi - 0.06, hi) if knob == "sb>1.1" else rng.uniform(max(0.62, c["sb"] - 0.45), hi), 4)
     elif knob == "pb":
         c["pb"] = round(rng.uniform(0.60, 0.975), 4)
     elif knob == "roll":
@@ -816,7 +821,8 @@ def cover(rng, knobs, ratios, per_ratio=2, members=3, max_period=64, engines=(0,
             cands.append(("base", mkcfg(ir, orr, rec, 0, simd=rng.choice(list(engines))), rng.next()))
     for (ir, orr) in ANCHOR_SB_GT1:
         for rec in (3, 4, 6):
-            cands.append(("sb>1", apply_knob(rng, mkcfg(ir, orr, rec, 0, simd=rng.choice(list(engines))), "sb>1"), rng.next()))
+            for kn in ("sb>1", "sb>1.1"):
+                cands.append((kn, apply_knob(rng, mkcfg(ir, orr, rec, 0, simd=rng.choice(list(engines))), kn), rng.next()))
     if irr:
         for (ir, orr) in ANCHOR_IRRATIONAL:
             for rec in (4, 7):
@@ -858,7 +864,6 @@ def cover(rng, knobs, ratios, per_ratio=2, members=3, max_period=64, engines=(0,
 
 # ------------------------------------------------------------------ known findings of the pinned tree (known_findings.d/signal.json)
 
-_RX_15_2 = re.compile(r"^poly\d\+dft\[[FT]dn2u?\]$")
 
 
 def finding_flags(info):
@@ -869,7 +874,6 @@ def finding_flags(info):
     return {
         "F-PH1": fph1_signature(info),
         "F-SG1": rolloff_of(info) == 0 and any(k.startswith("poly") for k in kinds),
-        "F-SG2": q["sb"] > 1 and bool(_RX_15_2.match(plan_class(info))),
         "F-SG3": info.get("engine", "") in ("cr32", "cr32s") and bits_of(info) > 19 and up and q["sb"] < 1,
         "F-SG5": bits_of(info) == 16 and rolloff_of(info) == 1 and "poly1" in kinds,
         "F-SG6": q["sb"] > 1.1 and bits_of(info) >= 26 and "half" in kinds,
@@ -880,33 +884,10 @@ def finding_flags(info):
 FINDING_SYMPTOM = {
     "F-PH1": {"stop": 8.0, "img": 8.0, "res": 4.0, "rowsum": 4.0},      # at most 18 dB above 2^-bits (known_findings.d/phase.json)
     "F-SG1": {"gain": 2.0},                                              # |gain error| in (0.01, 0.02] dB
-    "F-SG2": {"res": None, "img": None},                                 # absolute level <= SG2_LEVEL and at most SG2_RATIO x the bound
     "F-SG3": {"stop": 1.13},                                             # at most 1 dB above 2^-bits
     "F-SG5": {"res": 1.5},                                               # fit residual <= 1.5 x 2^(1-bits)
     "F-SG6": {"stop": 8.0},                                              # at most 18 dB above 2^-bits (mapped: 3.63 at 33 bits, stopband_begin 1.14)
 }
-SG2_LEVEL = 2.0 ** -13                                                   # absolute residual / image level of F-SG2 (mapped: <= 1.0e-4 at 15 bits)
-SG2_RATIO = 1500.0                                                       # ... and relative to 2^(1-bits) (mapped: 1019 at 33 bits, stopband_begin 1.2)
-
-
-def sg4_signature(pclass, gain):
-    """Known finding F-SG4, configuration part: the poly-phase stage is the first stage with designed coefficients (it carries the
-    gain) and the gain is not 1."""
-    return "F-SG4" in ACTIVE and bool(re.match(r"^poly\d", pclass)) and gain != 1
-
-
-def sg4_cap(pclass, gain, bits):
-    """Known finding F-SG4, symptom part: the error (of full scale, relative to the factor) that one outermost tap left unscaled
-    explains.  The tap is of the order of the stop-band ripple (mapped: 0.13 .. 1.0 x 2^(1-bits), 8->5 VHQ the largest); left at 1
-    instead of gain it is off by |1/gain - 1| relative to the factor: |gain| << 1 (integer input to a wider format): unbounded;
-    otherwise 4 x 2^(1-bits) x max(1, |1/gain - 1|)."""
-    if not sg4_signature(pclass, gain):
-        return 0.0
-    if abs(gain) < 2.0 ** -8:
-        return float("inf")
-    return 4 * 2.0 ** (1 - bits) * max(1.0, abs(1.0 / gain - 1.0))
-
-
 ACTIVE = set()           # ids of the findings listed as `known` for the running property (set_active)
 
 
@@ -924,11 +905,7 @@ def known_excess(r, metric, m, level=None):
     for fid, on in sorted(r.get("flags", {}).items()):
         if not on or fid not in ACTIVE or metric not in FINDING_SYMPTOM[fid]:
             continue
-        cap = FINDING_SYMPTOM[fid][metric]
-        if cap is None:
-            if level is not None and level <= SG2_LEVEL and m <= SG2_RATIO:
-                return fid
-        elif m <= cap:
+        if m <= FINDING_SYMPTOM[fid][metric]:
             return fid
     return None
 
